@@ -7,6 +7,7 @@ import (
 	"fmt"
 	"os"
 	"path/filepath"
+	"runtime"
 	"sort"
 	"strconv"
 	"strings"
@@ -55,6 +56,7 @@ type Ctx struct {
 
 	curInput atomic.Value // func() []byte
 	curStart atomic.Int64
+	caseNo   atomic.Int64
 	curCheck atomic.Value
 }
 
@@ -252,6 +254,8 @@ type ReplayFile struct {
 	Check    string          `json:"check"`
 	Error    string          `json:"error"`
 	Input    json.RawMessage `json:"input"`
+	// Procs: the GOMAXPROCS value the case failed under (the replay runs under the same number; 0 = whatever the machine has)
+	Procs int `json:"gomaxprocs,omitempty"`
 }
 
 func (c *Ctx) writeReplay(check string, input any, err error) string {
@@ -259,7 +263,7 @@ func (c *Ctx) writeReplay(check string, input any, err error) string {
 	if jerr != nil {
 		in = []byte(`"unserialisable input"`)
 	}
-	rf := ReplayFile{Property: c.Prop, Check: check, Error: err.Error(), Input: in}
+	rf := ReplayFile{Property: c.Prop, Check: check, Error: err.Error(), Input: in, Procs: runtime.GOMAXPROCS(0)}
 	b, _ := json.MarshalIndent(rf, "", " ")
 	dir := filepath.Join(c.root, "replays", c.Prop)
 	_ = os.MkdirAll(dir, 0o755)
@@ -319,7 +323,37 @@ func (c *Ctx) watchdog() {
 	}
 }
 
+// ProcsSchedule: the numbers of processors (GOMAXPROCS) the cases of a run are evaluated under, in rotation. The library
+// is a library: its results may not depend on how many processors the process has - one (a small container), an odd number,
+// more than this machine has. Code that picks a path by runtime.GOMAXPROCS / NumCPU is exercised on every path that way.
+var ProcsSchedule = []int{0, 1, 2, 3, 0, 5, 7, 12, 0, 17, 24, 32}
+
+// RotateProcs is switched off by checks that set GOMAXPROCS themselves (C18).
+var RotateProcs = true
+
+var procsFrozen atomic.Bool
+
+func (c *Ctx) rotateProcs() {
+	if !RotateProcs || procsFrozen.Load() {
+		return
+	}
+	n := c.caseNo.Add(1)
+	const every = 8
+	if n%every != 1 {
+		return
+	}
+	p := ProcsSchedule[int(n/every)%len(ProcsSchedule)]
+	if p == 0 {
+		p = runtime.NumCPU()
+	}
+	runtime.GOMAXPROCS(p)
+	c.mu.Lock()
+	c.stats.Labels[fmt.Sprintf("gomaxprocs:%d", p)] += every
+	c.mu.Unlock()
+}
+
 func (c *Ctx) begin(check string, input func() any) {
+	c.rotateProcs()
 	c.curCheck.Store(check)
 	c.curInput.Store(input)
 	c.curStart.Store(time.Now().Unix())
@@ -361,7 +395,11 @@ func (ck *Check[I]) safeOracle(in I) (out Outcome) {
 			out = Outcome{Err: fmt.Errorf("HARNESS-PANIC in oracle: %v", r)}
 		}
 	}()
-	return ck.Oracle(in)
+	out = ck.Oracle(in)
+	if out.Err != nil {
+		procsFrozen.Store(true) // shrinking and the final re-execution run under the number of processors of the failure
+	}
+	return out
 }
 
 // Eval runs the oracle on an explicit input (deterministic sweeps). Returns false on violation.
@@ -446,6 +484,9 @@ func Replay(path string) (string, error, error) {
 	fn, ok := registry[rf.Property+"/"+rf.Check]
 	if !ok {
 		return rf.Property, nil, fmt.Errorf("no check %s/%s registered", rf.Property, rf.Check)
+	}
+	if rf.Procs > 0 {
+		defer runtime.GOMAXPROCS(runtime.GOMAXPROCS(rf.Procs))
 	}
 	return rf.Property, fn(rf.Input), nil
 }
